@@ -195,6 +195,14 @@ def run(ctx: Ctx) -> int:
         for sig, case in bad:
             ctx.disagree(sig, case)
     ctx.cov["replayed_programs"] = len(items)
+    # CEL's minimum nesting limits: three recursive rules nested 12 deep each (no RecursionError may escape)
+    r = ctx.tlc("MC_C04", 'SPECIFICATION Spec\nCONSTANTS MODE = "deep" LEN = 0\nCHECK_DEADLOCK FALSE\n', dump=True, name="three rules nested 12 deep each")
+    deep = [(s["prog"], s["exp"]) for s in read_dump(r.dump) if not (s["prog"]["k"] == "lit")]
+    for n, bad in pmap(_replay_prog, deep):
+        nobs += n
+        for sig, case in bad:
+            ctx.disagree(sig, case)
+    ctx.cov["replayed_deep_programs"] = len(deep)
     # every literal text of the C07 string model, well-formed or not (escapes that do not belong, \\u in bytes, ...)
     r = ctx.tlc("MC_C07", "SPECIFICATION Spec\nCONSTANTS LEN = 2\nCHECK_DEADLOCK FALSE\n", dump=True, name="literal texts, well-formed or not")
     lits = sorted(set("".join(chr(c) for c in s["text"]) for s in read_dump(r.dump)))
